@@ -230,6 +230,17 @@ func (p *Prop) Run(t *simhook.Tape, opt simkit.RunOpt) *simkit.RunResult {
 		// decision at every yield would cost seconds per call
 		pln.policy.Gap = 2000
 	}
+	if !race && opt.RunIndex%8 == 7 {
+		// (these runs have the concurrent phase first, see below) every task starts
+		// inside the same call, and every synchronisation operation is a decision:
+		// the first use of whatever that call shares is contended
+		for tk := 1; tk < len(pln.taskCalls); tk++ {
+			pln.taskCalls[tk][0] = pln.taskCalls[0][0]
+		}
+		if simhook.SyncSites > 0 && pln.policy.Kind != simhook.PSeq {
+			pln.policy.SyncBias = true
+		}
+	}
 	// history plan
 	pln.histOrder = g.Perm(len(pln.calls))
 	for _, ci := range pln.histOrder {
